@@ -298,6 +298,8 @@ func reproduced(v *Violation, rr *ReplayResult) bool {
 		return rr.Panicked
 	case "depth-cap":
 		return rr.Panicked || rr.TimedOut
+	case "loop-cap":
+		return rr.TimedOut
 	case "deadlock":
 		return rr.TimedOut || strings.Contains(rr.Out, "all goroutines are asleep")
 	case "race":
